@@ -166,7 +166,7 @@ func sstGenCase(r *Rng, tier string) *sstCase {
 	case k < 85:
 		n = 9 + r.Intn(52)
 	default:
-		n = 100 + r.Intn(200)
+		n = 100 + r.Intn(150)
 	}
 	if tier == "thorough" && r.Chance(4) {
 		n = 1000 + r.Intn(2000)
@@ -902,7 +902,7 @@ func runSst(res *Result, drv *Driver, seed uint64, n int, tier string, only int)
 		"non-trivial = at least one accepted pair; distinct = distinct (program, options) strings"
 	// corpus first: the hand-written inputs of the counterexample theorems in SST/Props/C03.lean
 	// (case indices 1000000+i so that --only still addresses the generated cases)
-	for ci, c := range sstCorpus() {
+	for ci, c := range sstCorpus(seed) {
 		i := 1000000 + ci
 		if only >= 0 && i != only {
 			continue
@@ -936,7 +936,7 @@ func runSst(res *Result, drv *Driver, seed uint64, n int, tier string, only int)
 	return nil
 }
 
-func sstCorpus() []*sstCase {
+func sstCorpus(seed uint64) []*sstCase {
 	mk := func(style string, kvs ...sstKV) *sstCase {
 		c := &sstCase{dcomp: 0, icomp: 0, wbuf: 4096, rbuf: 4096, bloomN: 1000, bloomP: 0.01, style: style, flavour: "table"}
 		for _, p := range kvs {
@@ -951,19 +951,22 @@ func sstCorpus() []*sstCase {
 	// tables holding MORE records than the bloom filter was dimensioned for, through both writers:
 	// a tiny expectation with a sparse filter, and the default expectation of 1000 with 1100 small records
 	many := func(n int, bloomN uint64, p float64, simple bool) *sstCase {
-		c := &sstCase{dcomp: 2, icomp: 0, wbuf: 4096, rbuf: 4096, bloomN: bloomN, bloomP: p, style: "int", flavour: "table", simple: simple}
+		c := &sstCase{dcomp: 0, icomp: 0, wbuf: 4096, rbuf: 4096, bloomN: bloomN, bloomP: p, style: "int", flavour: "table", simple: simple}
 		for i := 0; i < n; i++ {
 			var k [8]byte
 			binary.BigEndian.PutUint64(k[:], uint64(3*i+1))
-			c.calls = append(c.calls, sstCall{append([]byte{}, k[:]...), []byte{byte(i), byte(i >> 8)}, 'n'})
+			v := []byte{byte(i)}
+			if i%3 == 0 {
+				v = []byte{}
+			}
+			c.calls = append(c.calls, sstCall{append([]byte{}, k[:]...), v, 'n'})
 		}
 		return c
 	}
 	return []*sstCase{
 		many(40, 3, 0.000001, false),
 		many(40, 3, 0.000001, true),
-		many(1100, 1000, 0.01, false),
-		many(1100, 1000, 0.01, true),
+		many(1040, 1000, 0.01, seed%2 == 0), // default expectation; the writer alternates with the seed
 		mk("short4", sstKV{[]byte("a"), []byte("1")}, sstKV{[]byte("a\x00"), []byte("2")}),                  // map_index_pad_collision
 		mk("mid20", sstKV{[]byte{1}, []byte{7}}, sstKV{twelve, []byte{8}}),                                  // disk_index_eof_in_binary_search
 		mk("short4", sstKV{[]byte{5}, []byte{1}}, sstKV{[]byte{6}, []byte{2}}, sstKV{[]byte{7}, []byte{3}}), // disk_index_range_upper_below_min
@@ -1130,12 +1133,24 @@ func sstOne(res *Result, drv *Driver, r *Rng, c *sstCase, idx int, dir string, t
 		accCalls[i] = sstCall{p.key, p.val, 'n'}
 	}
 	// the disk loader's lookups are slow in the model (byte-offset binary search over lists): on big tables
-	// it gets the every-written-key Contains probes for the last 120 keys and every 16th key only
+	// it gets the every-written-key Contains probes for the last 40 keys and every 64th key, and a handful of the other probes
 	allProbes := probes
 	var diskProbes []sstProbe
+	kept := map[string]int{}
 	for _, p := range allProbes {
-		if len(ref.acc) > 400 && p.every > 0 && p.every <= len(ref.acc)-120 && p.every%16 != 0 {
+		if len(ref.acc) > 100 && p.every > 0 && p.every <= len(ref.acc)-40 && p.every%8 != 0 {
 			continue
+		}
+		if len(ref.acc) > 400 {
+			if p.every > 0 && p.every <= len(ref.acc)-40 && p.every%64 != 0 {
+				continue
+			}
+			if p.every == 0 { // a handful of each other kind
+				kept[p.kind]++
+				if kept[p.kind] > map[string]int{"scan": 1, "get": 6, "has": 6, "from": 1, "range": 3}[p.kind] {
+					continue
+				}
+			}
 		}
 		diskProbes = append(diskProbes, p)
 	}
